@@ -83,3 +83,45 @@ def shrink_dataset_case(case, keys=("dataset",)):
 
 def base_tags(case):
     return ["family:" + case["meta"]["family"], "kind:" + case["meta"]["kind"], "scheme:" + case["scheme"]["family"].split(":")[0]]
+
+
+# ----------------------------------------------------------------------------------------------
+# datasets "with a past": the same objects were queried, then modified in place through the public mutators,
+# before the call under test (stale caches / memoised values only show on such histories)
+# ----------------------------------------------------------------------------------------------
+def gen_past(rng, raw):
+    els = lib.dataset_elems(raw)
+    ops = [["query"]]
+    k = rng.choice(["remove", "remove", "remove_empty", "rate"])
+    if k == "remove":
+        ops.append(["remove", [e for e in els if rng.random() < 0.3]])
+    elif k == "remove_empty":
+        ops.append(["remove_empty"])
+    else:
+        ops.append(["rate", rng.choice([2, 3, 4, 5]), 8])
+    return ops
+
+
+def apply_past(ds, sch, ops, extra_query=None):
+    """applies the past to the SAME dataset object; a mutator that raises leaves the dataset as it was"""
+    from corankco.algorithms.borda.borda import BordaCount
+    from corankco.scoringscheme import ScoringScheme
+    for op in ops:
+        try:
+            if op[0] == "query":
+                ds.unified_rankings()
+                ds.unified_dataset()
+                ds.get_positions()
+                ds.get_bucket_ids()
+                BordaCount().compute_consensus_rankings(ds, ScoringScheme.get_unifying_scoring_scheme())
+                bool(ds == ds)
+                if extra_query is not None:
+                    extra_query()
+            elif op[0] == "remove":
+                ds.remove_elements(set(lib.conv_like_dataset(ds, [op[1]])[0]))
+            elif op[0] == "remove_empty":
+                ds.remove_empty_rankings()
+            elif op[0] == "rate":
+                ds.remove_elements_rate_presence_lower_than(op[1] / op[2])
+        except Exception:  # noqa: BLE001
+            pass
